@@ -436,5 +436,7 @@ _targets_before_traversal = targets
 
 def targets():      # noqa: F811
     """+ completeness of the traversals for every connection tree (pyvc.hoare): every element is listed exactly once"""
-    from . import traversal
-    return _targets_before_traversal() + traversal.targets()
+    from . import traversal, c12
+    # shared with C12: the parameter table uses the names and identifiers consistently -- every cell of a row belongs to the element
+    # and the parameter the row is labelled with
+    return _targets_before_traversal() + traversal.targets() + [c12.target_parameters_table()]
